@@ -105,7 +105,7 @@ func (s *Server) HTTP(method, pathAndQuery string, body string) (int, []byte, er
 	for k, v := range ExtraHTTPHeader {
 		req.Header[k] = v
 	}
-	cl := &http.Client{Timeout: 10 * time.Second}
+	cl := &http.Client{Timeout: 60 * time.Second}
 	resp, err := cl.Do(req)
 	if err != nil {
 		return 0, nil, err
